@@ -153,6 +153,40 @@ def check(P: Project, R: Report) -> None:
                     touched_ = [x for x in walk_local(f.node) if isinstance(x, ast.Subscript) and isinstance(x.ctx, ast.Store) and isinstance(x.value, ast.Name) and x.value.id == ev.id and not (isinstance(x.slice, ast.Constant) and x.slice.value == "data")]
                     if ds_ and all(isinstance(s_.value, ast.Dict) for s_ in ds_) and not touched_:
                         evs_ = [s_.value for s_ in ds_]
+                # … or made by a package helper that returns {"code": <its 1st argument>, "message": <its 2nd>} (plus optional data)
+                def _via_error_helper(e_):
+                    if not isinstance(e_, ast.Call):
+                        return None
+                    g_ = P.resolve_call(f, e_)
+                    if not isinstance(g_, FuncInfo) or g_.cls is not None or any(isinstance(a_, ast.Starred) for a_ in e_.args):
+                        return None
+                    ps_ = g_.positional_params()
+                    disp = [n_ for n_ in walk_local(g_.node) if isinstance(n_, ast.Dict)]
+                    rets_ = [r_ for r_ in walk_local(g_.node) if isinstance(r_, ast.Return)]
+                    if len(disp) != 1 or len(rets_) != 1 or len(ps_) < 2:
+                        return None
+                    d_ = disp[0]
+                    km = {k_.value: v_ for k_, v_ in zip(d_.keys, d_.values) if isinstance(k_, ast.Constant)}
+                    if set(km) - {"code", "message", "data"} or not (isinstance(km.get("code"), ast.Name) and isinstance(km.get("message"), ast.Name)):
+                        return None
+                    others = [x_ for x_ in walk_local(g_.node) if isinstance(x_, ast.Subscript) and isinstance(x_.ctx, ast.Store) and not (isinstance(x_.slice, ast.Constant) and x_.slice.value == "data")]
+                    if others:
+                        return None
+                    bound = {}
+                    for p_, a_ in zip(ps_, e_.args):
+                        bound[p_] = a_
+                    for k_ in e_.keywords:
+                        if k_.arg:
+                            bound[k_.arg] = k_.value
+                    if km["code"].id not in bound or km["message"].id not in bound:
+                        return None
+                    return ast.Dict(keys=[ast.Constant(value="code"), ast.Constant(value="message")], values=[bound[km["code"].id], bound[km["message"].id]])
+
+                if len(evs_) == 1 and isinstance(evs_[0], ast.Name):
+                    ds2_ = [s_ for s_ in walk_local(f.node) if isinstance(s_, (ast.Assign, ast.AnnAssign)) and ast.unparse(s_.targets[0] if isinstance(s_, ast.Assign) else s_.target) == evs_[0].id]
+                    if ds2_ and all(s_.value is not None and (_via_error_helper(s_.value) is not None or isinstance(s_.value, ast.Dict)) for s_ in ds2_):
+                        evs_ = [s_.value for s_ in ds2_]
+                evs_ = [(_via_error_helper(e_) or e_) for e_ in evs_]
                 for ev in evs_:
                   if isinstance(ev, ast.Dict):
                       ek = {k.value: v for k, v in zip(ev.keys, ev.values) if isinstance(k, ast.Constant)}
